@@ -80,6 +80,7 @@ func (n *keysNode) child() *keysNode {
 }
 
 type keysWorker struct {
+	variant string
 	p      *env.Provider
 	tab    Table
 	root   *keysNode
@@ -98,7 +99,7 @@ func (c Keys) NewWorker(stats *engine.Stats) (engine.Worker, error) {
 	if err != nil {
 		return nil, err
 	}
-	w := &keysWorker{p: p, stats: stats, pool: map[string]env.ConsKey{}, U: p.Cfg.Unbonding, cons: []string{"2", "10", "3"}}
+	w := &keysWorker{variant: c.Variant, p: p, stats: stats, pool: map[string]env.ConsKey{}, U: p.Cfg.Unbonding, cons: []string{"2", "10", "3"}}
 	w.pool["k1"] = env.NewConsKey("k1")
 	w.pool["k2"] = env.NewConsKey("k2")
 	w.pool["pk0"] = p.Vals[0].Key
@@ -161,6 +162,18 @@ func (c Keys) NewWorker(stats *engine.Stats) (engine.Worker, error) {
 	}
 	w.root = x
 	w.build()
+	if c.Variant == "removal" {
+		// v1 is on its way out (all stake unbonding since t0) and uses k1 on the launched consumer; the
+		// search starts 10 s later, so that a replacement made now outlives the validator's removal
+		for _, ev := range []string{"unbond-all(v1)", "assign(v1,c2,k1)", "block(5s)", "block(5s)"} {
+			nn, vs := w.tab.Apply(w.root, ev)
+			w.rootVs = append(w.rootVs, vs...)
+			if nn == nil {
+				return nil, fmt.Errorf("removal prefix: %s failed", ev)
+			}
+			w.root = nn.(*keysNode)
+		}
+	}
 	return w, nil
 }
 
@@ -178,15 +191,34 @@ func (w *keysWorker) Hash(n engine.Node) [32]byte {
 
 func (w *keysWorker) build() {
 	p := w.p
-	for _, dt := range []time.Duration{5 * time.Second, w.U - 5*time.Second, w.U} {
-		dt := dt
-		w.tab.Add(fmt.Sprintf("block(%s)", dt), func(n engine.Node) (engine.Node, []V) { return w.block(n, dt) })
-	}
-	for _, a := range []struct {
+	dts := []time.Duration{5 * time.Second, w.U - 5*time.Second, w.U}
+	assigns := []struct {
 		vi   int
 		cid  string
 		keys []string
-	}{{0, "2", w.names}, {0, "10", w.names}, {1, "2", []string{"k1", "k2", "pk0"}}} {
+	}{{0, "2", w.names}, {0, "10", w.names}, {1, "2", []string{"k1", "k2", "pk0"}}}
+	if w.variant == "removal" {
+		dts = []time.Duration{5 * time.Second, w.U - 10*time.Second, w.U}
+		assigns = assigns[:0]
+		assigns = append(assigns, struct {
+			vi   int
+			cid  string
+			keys []string
+		}{0, "2", []string{"k1", "k2"}}, struct {
+			vi   int
+			cid  string
+			keys []string
+		}{1, "2", []string{"k1", "k2"}}, struct {
+			vi   int
+			cid  string
+			keys []string
+		}{2, "2", []string{"k1"}})
+	}
+	for _, dt := range dts {
+		dt := dt
+		w.tab.Add(fmt.Sprintf("block(%s)", dt), func(n engine.Node) (engine.Node, []V) { return w.block(n, dt) })
+	}
+	for _, a := range assigns {
 		for _, kn := range a.keys {
 			vi, cid, kn := a.vi, a.cid, kn
 			w.tab.Add(fmt.Sprintf("assign(v%d,c%s,%s)", vi, cid, kn), func(n engine.Node) (engine.Node, []V) {
@@ -260,8 +292,10 @@ func (w *keysWorker) assign(n engine.Node, vi int, cid, kn string, viaOptIn bool
 	if oper, ok := w.provKeyOwner(ctx, key); ok && oper != v.ValAddr().String() {
 		mustReject = "provider-key-of-another-validator"
 	}
-	if _, ok := w.mustKnown(x.M, cid, kn, now); ok {
+	ownerGone := false
+	if e, ok := w.mustKnown(x.M, cid, kn, now); ok {
 		mustReject = "current-or-recently-replaced-key-on-this-consumer"
+		ownerGone = x.Removed[e.Owner]
 	}
 	c := x.child()
 	var msg sdk.Msg = env.MsgAssignKey(v, cid, key)
@@ -272,6 +306,9 @@ func (w *keysWorker) assign(n engine.Node, vi int, cid, kn string, viaOptIn bool
 	w.stats.Count(fmt.Sprintf("assign:mustReject=%v,accepted=%v", mustReject != "", r.Err == nil))
 	if r.Err != nil {
 		debugOnce("keys:assign:"+kn, r.Err)
+		if ownerGone {
+			w.stats.Count("replaced-key-of-removed-validator-still-reserved")
+		}
 		return nil, nil
 	}
 	var vs []V
@@ -362,10 +399,13 @@ func (w *keysWorker) dropRemoved(c *keysNode, s *env.State) {
 		if _, err := w.p.PApp.StakingKeeper.GetValidator(s.Ctx, w.p.Vals[vi].ValAddr()); err != nil {
 			c.Removed[vi] = true
 			w.stats.Count("validator-removed")
+			// the keys it currently used are forgotten at once by the code and the statement does not
+			// say otherwise (it is no longer a provider validator): don't-care. Keys it had *replaced*
+			// less than an unbonding period ago stay attributed and reserved, as the statement says.
 			for _, cid := range w.cons {
 				delete(c.M.Cur[cid], vi)
 				for k, e := range c.M.Known[cid] {
-					if e.Owner == vi {
+					if e.Owner == vi && e.Expiry == 0 {
 						delete(c.M.Known[cid], k)
 					}
 				}
